@@ -213,6 +213,7 @@ func substitute(e ast.Expr, env symEnv) ast.Expr {
 }
 
 var extractMethodNameID ast.Expr // symbolic second result of extractMethodName
+var visitorName string
 
 func callName(c *ast.CallExpr) string {
 	switch f := c.Fun.(type) {
@@ -414,20 +415,28 @@ func caseLabels(cc *ast.CaseClause) []string {
 }
 
 func nodeLiterals(f *ast.File) []NodeLit {
-	fd := findFunc(f, "buildGraphFromAST")
-	if fd == nil {
-		die("buildGraphFromAST not found")
-	}
+	// the visitor: the function (buildGraphFromAST or the one it delegates to) whose body switches on node.Type()
 	var outer *ast.SwitchStmt
-	for _, st := range fd.Body.List {
-		if sw, ok := st.(*ast.SwitchStmt); ok && src(sw.Tag) == "node.Type()" {
-			outer = sw
-			break
+	visitor := ""
+	for _, d := range f.Decls {
+		fd, ok := d.(*ast.FuncDecl)
+		if !ok || fd.Body == nil {
+			continue
+		}
+		for _, st := range fd.Body.List {
+			if sw, ok := st.(*ast.SwitchStmt); ok && src(sw.Tag) == "node.Type()" {
+				if outer != nil {
+					die("more than one function switches on node.Type(): %s and %s", visitor, fd.Name.Name)
+				}
+				outer = sw
+				visitor = fd.Name.Name
+			}
 		}
 	}
 	if outer == nil {
-		die("switch node.Type() not found in buildGraphFromAST")
+		die("no function with `switch node.Type()` found in construct.go")
 	}
+	visitorName = visitor
 	var lits []NodeLit
 	for _, c := range outer.Body.List {
 		cc := c.(*ast.CaseClause)
@@ -1040,7 +1049,7 @@ func main() {
 		f     *ast.File
 		names []string
 	}{
-		{construct, []string{"buildGraphFromAST", "extractMethodName", "getFiles", "Initialize", "parseJavadocTags", "extractVisibilityModifier", "AddNode", "AddEdge", "FindNodesByType"}},
+		{construct, []string{"buildGraphFromAST", "traverseAST", "markInvokedMethods", "extractMethodName", "getFiles", "Initialize", "parseJavadocTags", "extractVisibilityModifier", "AddNode", "AddEdge", "FindNodesByType"}},
 		{query, []string{"QueryEntities", "generateOutput", "evaluateExpression", "generateCartesianProduct", "cartesianProduct", "ReplacePredicateVariables", "FilterEntities", "generateProxyEnvForSet", "generateProxyEnv"}},
 		{ci, []string{"generateSarifReport", "loadRules", "downloadRuleset", "ParseQuery", "ParseCommentLine"}},
 		{cmdq, []string{"executeCLIQuery", "processQuery", "ExtractQueryFromFile"}},
